@@ -89,6 +89,9 @@ impl Case {
         self.imp.push(imp);
     }
     pub fn fail(&mut self, msg: String) {
+        if std::env::var("VH_ALL_FAILS").is_ok() {
+            eprintln!("[{}] {}", self.id, msg);
+        }
         if self.oracle.is_none() {
             self.oracle = Some(msg);
         }
